@@ -285,3 +285,59 @@ func H_Messages_CannotReleasePoolShares() {
 	vrf.Assert(env.W.BalOf(commMod, share).Equal(custody0), "C12/C02: a commitment message cannot move LP shares out of custody")
 	vrf.Assert(env.W.BalOf(alice, share).Equal(s.wallet), "C12/C02: no liquid LP shares appear in the account")
 }
+
+// ---- committing claimed rewards (Eden / EdenB): the chain-wide total moves with the ledger ----
+
+// MsgCommitClaimedRewards (also reached by MsgStake for ueden / uedenb): whatever amount is asked for and whatever the
+// handler decides to commit, the account's committed amount grows by exactly what leaves its claimed balance, and the
+// chain-wide committed total grows by exactly the same.
+//
+//vrf:cover commit-ok refused
+//vrf:bound 1 account with symbolic claimed and committed Eden / EdenB (symbolic choice) + symbolic remainder in the total; requested amount symbolic (below, equal to, above the claimed balance); through MsgCommitClaimedRewards or MsgStake
+func H_CommitClaimedRewards_TotalTracksLedger() {
+	env := wire.New(wire.Opts{CommHooks: noHooks{}})
+	now := vrf.I64("now", 1, maxT)
+	env.Ctx = vrf.SetBlock(env.Ctx, 10, now)
+	ctx := env.Ctx
+	denom := "ueden"
+	if vrf.Bool("edenB") {
+		denom = "uedenb"
+	}
+	env.Aprof.SetEntry(ctx, aptypes.Entry{BaseDenom: denom, Denom: denom, Decimals: 6, CommitEnabled: true, WithdrawEnabled: true})
+	claimed, committed, rest, amt := vrf.Int("claimed"), vrf.Int("committedA"), vrf.Int("committedRest"), vrf.Int("amt")
+	for _, x := range []sdkmath.Int{claimed, committed, rest} {
+		vrf.Assume(!x.IsNegative())
+	}
+	vrf.Assume(amt.IsPositive())
+	c := env.Comm.GetCommitments(ctx, alice)
+	if claimed.IsPositive() {
+		c.AddClaimed(sdk.NewCoin(denom, claimed))
+	}
+	if committed.IsPositive() {
+		c.AddCommittedTokens(denom, committed, 0)
+	}
+	env.Comm.SetCommitments(ctx, c)
+	p := ctypes.DefaultParams()
+	if committed.Add(rest).IsPositive() {
+		p.TotalCommitted = sdk.Coins{sdk.NewCoin(denom, committed.Add(rest))}
+	}
+	env.Comm.SetParams(ctx, p)
+	srv := ckeeper.NewMsgServerImpl(*env.Comm)
+	var err error
+	if vrf.Bool("viaStake") {
+		_, err = srv.Stake(ctx, &ctypes.MsgStake{Creator: alice.String(), Asset: denom, Amount: amt, ValidatorAddress: ""})
+	} else {
+		_, err = srv.CommitClaimedRewards(ctx, &ctypes.MsgCommitClaimedRewards{Creator: alice.String(), Denom: denom, Amount: amt})
+	}
+	if err != nil {
+		vrf.Cover("refused")
+		return // failed transaction: rolled back by baseapp
+	}
+	vrf.Cover("commit-ok")
+	c2 := env.Comm.GetCommitments(ctx, alice)
+	moved := claimed.Sub(c2.GetClaimedForDenom(denom))
+	vrf.Assert(!moved.IsNegative() && moved.LTE(amt), "C12 commit claimed: between nothing and the requested amount leaves the claimed balance")
+	vrf.Assert(c2.GetCommittedAmountForDenom(denom).Equal(committed.Add(moved)), "C12 commit claimed: the committed amount grows by exactly what left the claimed balance")
+	tot := env.Comm.GetParams(ctx).TotalCommitted.AmountOf(denom)
+	vrf.Assert(tot.Equal(c2.GetCommittedAmountForDenom(denom).Add(rest)), "C12 commit claimed: TotalCommitted == sum of accounts' committed amounts (it goes up by exactly what was committed)")
+}
